@@ -67,6 +67,7 @@ def run_history(ctx, clsname, presence, rng, nsteps, out, hid):
     except Exception as e:
         ctx.violation("%s.__init__:exception" % clsname, "%s: %s" % (type(e).__name__, e), {"ax": ax0, "presence": presence})
         return
+    retained = []
     for step in range(nsteps):
         a = rng.choice(axes)
         op = rng.choice(OPS)
@@ -121,12 +122,33 @@ def run_history(ctx, clsname, presence, rng, nsteps, out, hid):
                     c["err"] = "%s: %s" % (type(e).__name__, str(e)[:200]); c["post"] = pre; c["opnd"] = pre
                 out.append(c)
         if results and op != "lexsort":
-            nxt = results[rng.randrange(len(results))]
+            # live execution on the current object itself (the variants above worked on deep copies): objects derived
+            # from one another may share arrays, so earlier objects are retained and re-projected after later steps
+            backup = copy.deepcopy(cur)
+            form = rng.choice(forms); mut = rng.choice(muts)
+            try:
+                with time_limit(20):
+                    nxt = lm.execute(cur, clsname, a, op, args, form, mut, presence)
+            except Exception:
+                cur = backup
+                continue
             p = lm.project(nxt, kind)
             same_presence = all(p["lab"][x][f]["on"] == pre["lab"][x][f]["on"] for x in axes for f in lm.FIELDS[x])
-            if p["ok"]["cells"] and p["ok"]["square"] and all(len(p["ax"][x]) > 0 for x in axes) and same_presence:
+            if p["ok"]["cells"] and p["ok"]["square"] and all(len(p["ax"][x]) > 0 for x in axes) and same_presence \
+                    and -1 not in p["ax"][a]:
+                if nxt is not cur:
+                    retained.append((cur, lm.project(cur, kind), "%s(form=%s)" % (op + "_" + a, form), step))
+                    del retained[:-3]
                 cur = nxt
-            # otherwise the result left the model's state space (a reported/known defect): keep the current object
+            else:
+                cur = backup   # the result left the model's state space (a reported/known defect): continue from the old state
+        # earlier objects must not have been changed by operations on objects derived from them
+        for obj, snap, how, st0 in retained:
+            now = lm.project(obj, kind)
+            out.append({"qual": clsname + ".<retained>", "id": len(out) + 1, "hist": hid, "step": step, "cls": clsname, "kind": kind,
+                        "presence": presence, "axis": a, "op": "alias", "realop": "alias:" + how, "form": "live", "mut": False,
+                        "ix": [], "del": [], "pos": [], "blk": [], "raw": False, "objrepr": "retained at step %d, source of %s" % (st0, how),
+                        "pre": snap, "post": now, "opnd": now, "err": None, "lexsortok": True, "tab": lm.TAB})
 
 
 def run(ctx):
